@@ -140,7 +140,7 @@ theorem dead_blockAll {cid : Nat} {s : St} {i : Nat} {x : Impl} {b : Bool} (hi :
       s.next :=
   (Dead.prims cid).blockAll b h hi
 
-set_option maxHeartbeats 1000000 in
+set_option maxHeartbeats 400000 in
 theorem Dead_simple (cid : Nat) (s : St) (op : Op) (s' : St) (r : String) (hI : Dead cid s)
     (h : stepSimple s op = some (s', r)) : Dead cid s' := by
   cases op <;> simp only [stepSimple] at h
